@@ -293,6 +293,8 @@ def shrink_case(ctx, ds, text, optimize, listed_quirks, want, budget=250):
             return any(k != "dataset" for k, _, _ in v.violations)
         return bool(v.corr_broken)
 
+    if "backends" not in ds:
+        return ds, text       # world histories are not shrunk here
     lines = text.rstrip("\n").split("\n")
     # 1. header lines
     changed = True
